@@ -30,6 +30,8 @@ extern crate seek_bufread;
 pub mod blockchain;
 pub mod callbacks;
 pub mod common;
+#[cfg(rbp_verif)]
+pub mod verif;
 
 #[derive(Copy, Clone)]
 #[cfg_attr(test, derive(PartialEq, Debug))]
@@ -132,12 +134,18 @@ fn command() -> Command {
 }
 
 fn main() {
+    #[cfg(rbp_verif)]
+    if crate::verif::driver() {
+        return;
+    }
     let options = match parse_args(command().get_matches()) {
         Ok(o) => o,
         Err(desc) => {
             // Init logger to print outstanding error message
             SimpleLogger::init(log::LevelFilter::Debug).unwrap();
             error!(target: "main", "{}", desc);
+            #[cfg(rbp_verif)]
+            crate::verif::ev("exit", "\"code\":1,\"at\":\"args\"");
             process::exit(1);
         }
     };
@@ -157,6 +165,8 @@ fn main() {
             "Blockchain directory '{}' does not exist!",
             options.blockchain_dir.display()
         );
+        #[cfg(rbp_verif)]
+        crate::verif::ev("exit", "\"code\":1,\"at\":\"nodir\"");
         process::exit(1);
     }
 
@@ -169,6 +179,8 @@ fn main() {
                 options.blockchain_dir.display(),
                 e
             );
+            #[cfg(rbp_verif)]
+            crate::verif::ev("exit", "\"code\":1,\"at\":\"storage\"");
             process::exit(1);
         }
     };
@@ -178,9 +190,13 @@ fn main() {
         Ok(_) => info!(target: "main", "Fin."),
         Err(why) => {
             error!("{}", why);
+            #[cfg(rbp_verif)]
+            crate::verif::ev("exit", "\"code\":1,\"at\":\"callback\"");
             process::exit(1);
         }
     }
+    #[cfg(rbp_verif)]
+    crate::verif::ev("exit", "\"code\":0");
 }
 
 /// Parses args or panics if some requirements are not met.
